@@ -167,16 +167,16 @@ RW_RULES = [
     (r"updateChildCosts\(nbh\[i\]\);", "updateChildCosts(i);", 0),
     (r"nbh\[i\]->parent = motion;", "PARENT[i] = NEWM;", 0), (r"nbh\[i\]->incCost\b", "INC[i]", 0), (r"nbh\[i\]->cost\b", "COSTM[i]", 0), (r"motion->cost\b", "COSTM[NEWM]", 0),
 ]
-UNITS.append(dict(name="c04_rrtstar_rewire", template="C04/rrtstar_rewire.c", entry="h_rewire", enforce=["rrtstar_rewire"], flags=FLAGS, level="proof", bound="<= 16 neighbours",
+UNITS.append(dict(name="c04_rrtstar_rewire", template="C04/rrtstar_rewire.c", entry="h_rewire", enforce=["rrtstar_rewire"], flags=FLAGS, level="proof", bound="<= 4 neighbours",
                   replace=["motionCostIdx", "combine", "better", "distanceIdx", "checkMotionIdx", "removeFromParent", "pushChild", "updateChildCosts"],
-                  functions=["ompl::geometric::RRTstar::solve (rewiring step)"], backend="cadical", timeout=900, expect_loops=1, confirm=dict(unwind=4, defines={"MAXNB": 2}),
+                  functions=["ompl::geometric::RRTstar::solve (rewiring step)"], backend="minisat", timeout=3000, in_tiers=("thorough",), expect_loops=1, confirm=dict(unwind=4, defines={"MAXNB": 2}),
                   sources=[dict(name="rewire", file=RRTS, begin=r"bool checkForSolution = false;\s*for \(std::size_t i = 0; i < nbh\.size\(\); \+\+i\)\s*\{\s*if \(nbh\[i\] != motion->parent\)",
                                 end=r"double distanceFromGoal;", wrap_braces=False, rules=RW_RULES, loops={1: """
 __CPROVER_assigns(i, checkForSolution, __CPROVER_object_whole(PARENT), __CPROVER_object_whole(INC), __CPROVER_object_whole(COSTM), checkedG, removedG, pushedG, updatedG)
 __CPROVER_loop_invariant(i <= NB && PARENT[NEWM] == __CPROVER_loop_entry(PARENT[NEWM]) && COSTM[NEWM] == __CPROVER_loop_entry(COSTM[NEWM]))
 __CPROVER_loop_invariant(G >= i ==> (PARENT[G] == PARENT0 && INC[G] == INC0 && COSTM[G] == COST0 && !checkedG && removedG == 0 && pushedG == 0 && updatedG == 0))
 __CPROVER_loop_invariant((G < i && PARENT[G] == NEWM && PARENT0 != NEWM) ==> (INC[G] == MC[NEWM][G] && COSTM[G] == COSTM[NEWM] + MC[NEWM][G] && COSTM[G] < COST0 && ((checkedG && MVG) || valid[G] == 1) && removedG == 1 && pushedG == 1 && updatedG == 1))
-__CPROVER_loop_invariant((G < i && !(PARENT[G] == NEWM && PARENT0 != NEWM)) ==> (removedG == 0 && pushedG == 0 && updatedG == 0 && ((int)G != PARENT[NEWM] ==> (PARENT[G] == PARENT0 && INC[G] == INC0 && COSTM[G] == COST0))))
+__CPROVER_loop_invariant((G < i && !(PARENT[G] == NEWM && PARENT0 != NEWM)) ==> (removedG == 0 && pushedG == 0 && updatedG == 0 && PARENT[G] == PARENT0 && INC[G] == INC0 && COSTM[G] == COST0))
 __CPROVER_decreases(NB - i)
 """})],
                   canaries=[dict(name="reverse_edge_cost", where="body:rewire", rx=r"nbhIncCost = motionCostIdx\(NEWM, i\);", repl="nbhIncCost = motionCostIdx(i, NEWM);"),
